@@ -32,7 +32,10 @@ RULE = ('cases: (a) bit patterns -- all 2**16 half patterns exhaustively in both
         'boundary x boundary + random otherwise; (e) Python floats (doubles, mostly NOT singles) within +-1 single-ulp of every '
         'single-precision anchor (every exponent field x mantissa boundaries: zero, smallest/largest subnormal, smallest normal, powers of two, '
         'all-ones mantissas, largest finite, random) in eighths of an ulp incl. exact ties, nextafter neighbours of anchors and ties, both '
-        'signs, plus random 52-bit doubles and doubles outside the single range -- compared with struct \'<f\'.  evaluations = helper calls judged.  A case is non-trivial when it is not the '
+        'signs, plus random 52-bit doubles and doubles outside the single range -- compared with struct \'<f\'; (f) histories: a pool of 5 '
+        'live FPNum objects (patterns of all formats, floats, raw tuples), 6..16 random operations add/sub/mul/div/compare/convert/to_float on '
+        'pool members (also the same object on both sides; a quarter of the results replace a pool member), after EVERY operation the result vs '
+        'Fractions and every pool object vs its snapshot (components, flags, rational, convert() bits).  evaluations = helper calls judged.  A case is non-trivial when it is not the '
         'all-zero pattern / value / operand pair; distinct by content (format, pattern | w, v | operand descriptors | format, x, y); in the thorough tier only the '
         'cases whose content hash is 0 mod 4 are registered, so distinct_nontrivial is a lower bound there (keeps the merged set small)')
 SHARDS = {'quick': 1, 'thorough': 16}
@@ -817,13 +820,180 @@ def float_cases(tier, seed, shard):
         yield dict(kind='float', x=(f if rnd.getrandbits(1) else -f).hex())
 
 
+# --------------------------------------------------------------------------- (f) histories on live objects
+
+HIST_FMT = {'pat': None, 'float': 'dp'}
+
+
+def _snapshot(n):
+    return (n.s, n.e, n.m, n.p, bool(n.infinity), bool(n.nan))
+
+
+def _short(snap):
+    """(s, e, m, p, inf, nan) with wide integers shown as hex (p additionally as 2**k when it is a power of two)."""
+    s_, e_, m_, p_, i_, n_ = snap
+    ps = '2**%d' % (p_.bit_length() - 1) if isinstance(p_, int) and p_ > 0 and p_ & (p_ - 1) == 0 else hx(p_)
+    return 's=%r e=%r m=%s p=%s%s%s' % (s_, e_, hx(m_), ps, ' inf' if i_ else '', ' nan' if n_ else '')
+
+
+def _bits_for(desc, frac):
+    """Bit patterns the object must convert to, as far as the oracle knows them independently: a pattern-born object must give
+    back its own pattern, a float-born one its double pattern, a computed one the double pattern of its value when that value is
+    a non-zero double (the sign of a computed zero is not demanded)."""
+    if desc[0] == 'pat':
+        return {desc[1]: int(desc[2], 16) if isinstance(desc[2], str) else desc[2]}
+    if desc[0] == 'float':
+        x = float.fromhex(desc[1])
+        return {'dp': struct.unpack('<Q', struct.pack('<d', x))[0]}
+    if frac is None or frac == 0:
+        return {}
+    try:
+        f = float(frac)
+    except OverflowError:
+        return {}
+    if Fraction(f) != frac or math.isinf(f):
+        return {}
+    out = {'dp': struct.unpack('<Q', struct.pack('<d', f))[0]}
+    for tf in ('sp', 'hp'):
+        v = ref_encode(tf, f)
+        if v is not None:
+            out[tf] = v
+    return out
+
+
+def judge_history(case):
+    """A small pool of LIVE FPNum objects; a sequence of operations uses the same objects again and again (also the same object
+    on both sides).  After every operation: the result against Fractions, and every pool object must still be what it was --
+    same components()/flags, same rational, same convert() bits."""
+    out = []
+    n = 0
+    try:
+        with muted():
+            built = [build_operand(d) for d in case['pool']]
+    except Exception as e:
+        return 1, [V('fpnum_construct', dict(function='FPNum constructor', relation='raises:' + type(e).__name__), None, repr(e)[:120],
+                     'building the pool %r raises %r' % (case['pool'], e))]
+    objs = [b[0] for b in built]
+    exp = [b[1] for b in built]
+    for o, x in zip(objs, exp):
+        if fpnum_value(o) != x:
+            return 0, []          # construction is judged in the pattern / float sections
+    snaps = [_snapshot(o) for o in objs]
+    bits = [_bits_for(d, x) for d, x in zip(case['pool'], exp)]
+
+    def purity(step, op, i, j):
+        nonlocal n
+        for k, o in enumerate(objs):
+            role = 'self_and_argument' if (k == i and k == j) else ('self' if k == i else ('argument' if k == j else 'bystander'))
+            n += 1
+            rel = None
+            obs = None
+            if _snapshot(o) != snaps[k]:
+                rel = 'representation_changed_value_preserved' if fpnum_value(o) == exp[k] else 'value_changed'
+                obs = _snapshot(o)
+            else:
+                for fmt, v in bits[k].items():
+                    n += 1
+                    try:
+                        with muted():
+                            c = o.convert(fmt)
+                    except Exception as e:
+                        rel, obs = 'convert_raises:' + type(e).__name__, repr(e)[:80]
+                        break
+                    if c != v:
+                        rel, obs = 'convert_bits_changed:' + pattern_relation(fmt, c, v), hx(c)
+                        break
+            if rel:
+                out.append(V('fpnum_operand_purity', dict(function='FPNum.' + op, role=role, relation=rel.split(':')[0] if rel.startswith('convert_bits') else rel),
+                             dict(components=_short(snaps[k]), bits={f: hex(v) for f, v in bits[k].items()}), _short(obs) if isinstance(obs, tuple) else obs,
+                             'history step %d (%s %d,%d): pool object %d (%s) is no longer what it was: %s; was %s, now %s' % (
+                                 step, op, i, j, k, role, rel, _short(snaps[k]), _short(_snapshot(o)))))
+                return False
+        return True
+
+    for step, opd in enumerate(case['ops']):
+        op, i, j = opd[0], opd[1], opd[2]
+        A, B = objs[i], objs[j]
+        xa, xb = exp[i], exp[j]
+        n += 1
+        try:
+            with muted():
+                if op in ('add', 'sub', 'mul'):
+                    r = getattr(A, op)(B)
+                    want = {'add': xa + xb, 'sub': xa - xb, 'mul': xa * xb}[op]
+                    got = fpnum_value(r)
+                    if got != want:
+                        out.append(V('fpnum_' + op, dict(function='FPNum.' + op, operands='history', relation='flagged_nonfinite' if got is None else relation(got, want)),
+                                     str(want), str(got), 'history step %d: FPNum.%s(obj %d, obj %d): exact %s returned %s' % (step, op, i, j, want, got)))
+                        break
+                elif op == 'div':
+                    try:
+                        A.div(B)          # quotients are not in the statement: only what div does to its operands is judged
+                    except Exception:
+                        pass
+                    r = None
+                elif op == 'compare':
+                    c = A.compare(B)
+                    if c != _sign(xa - xb):
+                        out.append(V('fpnum_compare', dict(function='FPNum.compare', operands='history', relation='inverted' if c == -_sign(xa - xb) else 'other'),
+                                     _sign(xa - xb), c, 'history step %d: compare(obj %d, obj %d) values %s vs %s returned %r' % (step, i, j, xa, xb, c)))
+                        break
+                    r = None
+                elif op == 'convert':
+                    A.convert(opd[3])     # the value returned is judged by the purity pass when the oracle knows the bits
+                    r = None
+                elif op == 'to_float':
+                    f = A.to_float()
+                    fb = bits[i].get('dp')
+                    if fb is not None and struct.unpack('<Q', struct.pack('<d', f))[0] != fb:
+                        out.append(V('fpnum_to_float', dict(function='FPNum.to_float', operands='history', relation=relation(f, ref_float('dp', fb))),
+                                     ref_float('dp', fb), f, 'history step %d: to_float(obj %d) returned %r' % (step, i, f)))
+                        break
+                    r = None
+                else:
+                    raise ValueError(op)
+        except Exception as e:
+            out.append(V('fpnum_' + op, dict(function='FPNum.' + op, operands='history', relation='raises:' + type(e).__name__), None, repr(e)[:120],
+                         'history step %d: FPNum.%s(obj %d, obj %d) raises %r' % (step, op, i, j, e)))
+            break
+        if not purity(step, op, i, j):
+            break
+        dest = opd[3] if op in ('add', 'sub', 'mul') and len(opd) > 3 else None
+        if dest is not None and r is not None:
+            # the result becomes a live object itself
+            objs[dest], exp[dest], snaps[dest] = r, want, _snapshot(r)
+            bits[dest] = _bits_for(['op'], want)
+    return n, out
+
+
+def history_cases(tier, seed, shard):
+    rnd = rng(seed, 'C12', 'history', shard)
+    ops_pool = arith_operands(tier, rnd)
+    nz = [d for d in ops_pool if not desc_is_zero(d)]
+    for _ in range(1500 if tier == 'quick' else 12000):
+        pool = [rnd.choice(nz if rnd.random() < 0.9 else ops_pool) for _ in range(5)]
+        ops = []
+        for _ in range(rnd.randint(6, 16)):
+            op = rnd.choice(('add', 'add', 'sub', 'sub', 'mul', 'div', 'compare', 'compare', 'convert', 'to_float'))
+            i, j = rnd.randrange(5), rnd.randrange(5)
+            if op in ('add', 'sub', 'mul'):
+                ops.append([op, i, j, rnd.randrange(5) if rnd.random() < 0.25 else None])
+            elif op == 'convert':
+                ops.append([op, i, i, rnd.choice(FMTS)])
+            elif op == 'to_float':
+                ops.append([op, i, i])
+            else:
+                ops.append([op, i, j])
+        yield dict(kind='history', pool=pool, ops=ops)
+
+
 def _split(v):
     """hash(int) reduces modulo 2**61-1, so wide patterns are hashed as 60-bit limbs (v + 2**63 and v + 4 must not collide)."""
     m = (1 << 60) - 1
     return (v >> 120, (v >> 60) & m, v & m)
 
 
-JUDGES = {'pattern': judge_pattern, 'c2': judge_c2, 'arith': judge_arith, 'fxp': judge_fxp, 'float': judge_float}
+JUDGES = {'pattern': judge_pattern, 'c2': judge_c2, 'arith': judge_arith, 'fxp': judge_fxp, 'float': judge_float, 'history': judge_history}
 CASE_TIMEOUT = 30    # seconds; the slowest case on the unchanged tree takes a few milliseconds
 
 
@@ -860,6 +1030,9 @@ def run_check(run, tier, seed, shard):
     run.assume('only exactly representable values are judged for encode/convert (the statement says "every representable value"); '
                'conversion of a value that the target format cannot hold exactly is counted as not_representable, not judged')
     run.assume('NaN: only "is a NaN" is compared (payloads excepted)')
+    run.assume('operand purity: add/sub/mul/div/compare/convert/to_float must leave self, the argument and unrelated objects exactly as they were '
+               '(components(), flags, convert() bits); only reducePrecision* are mutators by contract and they are not called.  Quotients of div are not '
+               'in the statement and not judged (exceptions from div are tolerated), only what div does to its operands')
     run.assume('Python floats that are not singles: FloatingPointHelper.sp_to_ieee754(_parts) documents "the IEEE 754 representation of v" and rounds, '
                'so it is compared with the platform (struct \'<f\', round to nearest even, overflow -> infinity); sp_to_ieee754_parts is judged by the '
                'word s<<31 + e<<23 + m its parts denote (parts (s,0,2**23) are the smallest normal).  FPNum.convert truncates by design '
@@ -952,6 +1125,20 @@ def run_check(run, tier, seed, shard):
         return needs_rounding
     sweep('floats_around_sp_boundaries', fl(), fnt, fkey, 9973)
     run.extra['float_neighbourhood_inputs'] = fclasses
+    # (f) histories: the same live FPNum objects used again and again
+    hstat = {'histories': 0, 'operations': 0}
+
+    def hist():
+        for c in history_cases(tier, seed, shard):
+            hstat['histories'] += 1
+            hstat['operations'] += len(c['ops'])
+            for o in c['ops']:
+                hstat['op_' + o[0]] = hstat.get('op_' + o[0], 0) + 1
+                if o[1] == o[2] and o[0] in ('add', 'sub', 'mul', 'div', 'compare'):
+                    hstat['same_object_on_both_sides'] = hstat.get('same_object_on_both_sides', 0) + 1
+            yield c
+    sweep('fpnum_histories', hist(), lambda c: True, lambda c: int(stable_hash([c['pool'], c['ops']]), 16), 499)
+    run.extra['history_class'] = hstat
     run.extra['sections'] = sect
     for name, s in sect.items():
         if s['evaluations'] == 0 and not run.too_many:
